@@ -313,7 +313,17 @@ func genC10(t *rapid.T) *c10Case {
 						continue
 					}
 					ct := c10T{Hash: h, Series: int64(rapid.IntRange(0, 50).Draw(t, fmt.Sprintf("%s-h%d-s", l, h))), Total: int64(rapid.IntRange(0, 90).Draw(t, fmt.Sprintf("%s-h%d-t", l, h)))}
-					if rapid.IntRange(0, 2).Draw(t, fmt.Sprintf("%s-h%d-st", l, h)) == 0 {
+					if old, ok := cur[h]; ok {
+						// kept target: flip its state in 40% of the updates
+						ct.State = old.State
+						if rapid.IntRange(0, 9).Draw(t, fmt.Sprintf("%s-h%d-flip", l, h)) < 4 {
+							if old.State == "" {
+								ct.State = "in_transfer"
+							} else {
+								ct.State = ""
+							}
+						}
+					} else if rapid.IntRange(0, 2).Draw(t, fmt.Sprintf("%s-h%d-st", l, h)) == 0 {
 						ct.State = "in_transfer"
 					}
 					job := rapid.SampledFrom([]string{"ja", "jb"}).Draw(t, fmt.Sprintf("%s-h%d-job", l, h))
@@ -329,7 +339,16 @@ func genC10(t *rapid.T) *c10Case {
 			c.Ops = append(c.Ops, op)
 		case 1:
 			s := rapid.IntRange(-1, 12).Draw(t, l+"-samples")
-			c.Ops = append(c.Ops, c10Op{Kind: "scrape", Hash: uint64(rapid.IntRange(1, 7).Draw(t, l+"-hash")), Samples: s})
+			h := uint64(rapid.IntRange(1, 7).Draw(t, l+"-hash"))
+			if len(cur) > 0 && rapid.IntRange(0, 4).Draw(t, l+"-assigned") != 0 {
+				var hs []uint64
+				for x := range cur {
+					hs = append(hs, x)
+				}
+				sort.Slice(hs, func(i, j int) bool { return hs[i] < hs[j] })
+				h = hs[rapid.IntRange(0, len(hs)-1).Draw(t, l+"-which")]
+			}
+			c.Ops = append(c.Ops, c10Op{Kind: "scrape", Hash: h, Samples: s})
 		default:
 			c.Ops = append(c.Ops, c10Op{Kind: "restart"})
 		}
